@@ -7,6 +7,7 @@ import pyast
 import rungen
 import scopegen
 import runobs
+import renast
 import sexp
 import shrink
 from props import c05
@@ -288,6 +289,50 @@ def core_option_sets(ctx, n_random):
     return sets
 
 
+def renaming_application(ctx, progs, found_by):
+    """(C) tie for T01.13: minify(P, rename_locals only) must be the module the Lean model `renModule` builds from P and the
+    renaming read off the output, and that renaming must satisfy the theorem's side condition `modOK`"""
+    reqs, meta = [], []
+    for ident, src in progs:
+        out, err = minify(src, ['rename_locals'])
+        ctx.count()
+        if out is None:
+            continue
+        try:
+            w = renast.module_witness(src, out)
+        except renast.NoWitness as e:
+            ctx.add_broken('correspondence', 'rename.applyast:' + ident, 'no renaming explains the output (%s): source=%r output=%r' % (e, src[:300], out[:300]))
+            continue
+        try:
+            with pyast.unlimited():
+                entries = '(' + ' '.join('(%s (%s) (%s))' % (sexp.enc_str(f), ' '.join('(%s %s)' % (sexp.enc_str(o), sexp.enc_str(n)) for o, n in pairs),
+                                                             ' '.join(sexp.enc_str(p) for p in pro)) for f, pairs, pro in w) + ')'
+                reqs.append('rename.applyast %s %s' % (entries, pyast.enc_module(ast.parse(src))))
+            meta.append((ident, src, out, w))
+        except pyast.OutOfModel as e:
+            ctx.bump('out_of_model', str(e))
+    answers = ctx.driver.ask(reqs) if reqs else []
+    same = ok = renamed = 0
+    for (ident, src, out, w), ans in zip(meta, answers):
+        if not ans.startswith('ok '):
+            ctx.add_broken('correspondence', 'rename.applyast:' + ident, 'driver answered %r' % ans[:100])
+            continue
+        text = sexp.dec_str(ans[3:])
+        flag, model = text.split('\n', 1)
+        if any(pairs for _, pairs, _ in w):
+            renamed += 1
+            ctx.mark_nontrivial('renast|' + ident)
+        if model != out:
+            ctx.add_broken('correspondence', 'rename.applyast:' + ident, 'the model of applying the renaming prints %r, minify() prints %r (source %r)' % (model[:300], out[:300], src[:300]))
+        else:
+            same += 1
+        if flag != 'OK 1':
+            ctx.add_broken('correspondence', 'rename.modOK:' + ident, 'the renaming minify() chose does not satisfy the side condition of T01.13: %r in %r' % (w, src[:400]))
+        else:
+            ok += 1
+    ctx.stage('renaming-application:' + found_by, cases=len(meta), same_text=same, side_condition_holds=ok, with_renamed_names=renamed)
+
+
 def exception_table(ctx):
     """(D) the exception hierarchy table of Spec.PyCore against the running interpreter's builtins"""
     import builtins
@@ -320,6 +365,7 @@ def run(ctx):
     core = [('core%d' % i, rungen.core_program(ctx.rng)) for i in range(ctx.scale(150, 3000))]
     spec_validation(ctx, core, 'generated')
     spec_validation(ctx, core[:ctx.scale(80, 1500)], 'generated', optimized=True)      # `python -O` semantics (runO)
+    renaming_application(ctx, core[:ctx.scale(100, 2000)], 'generated')
     c05.run_programs(ctx, core[:ctx.scale(40, 600)], core_option_sets(ctx, ctx.scale(2, 10)), 'pycore-programs')
     osets_all = option_subsets(ctx, ctx.scale(3, 24))
     differential(ctx, CORNERS, osets_all, 'corners')
